@@ -29,6 +29,33 @@ SUFFIX = {"int": "", "uint": "U", "long": "L", "ulong": "UL", "llong": "LL", "ul
 LITBITS = {"int": 32, "long": 64, "llong": 64}
 DEVS = ["LogicalReturnsOperand", "BoolCastTruncates", "FloatToUnsignedRejectsNeg", "FloatCondNotFolded",
         "UnevaluatedOperandFolded", "NoDivisionGuard", "CondSameTypeNoPromotion", "BareAddressMinusRejected"]
+# Deviations whose defect has been repaired in /repo by a `fix:` commit: the implementation-shaped model then runs
+# with that deviation switched off and the check demands the correct behaviour (README "Genuine defects").
+# Development override: VERIF_C04_FIXED=Name,Name|all
+FIXED = ["CondSameTypeNoPromotion"]        # /repo ba99903 (fix: conditional operator applies the usual arithmetic conversions ...)
+
+
+def fixed_devs():
+    e = os.environ.get("VERIF_C04_FIXED")
+    if e is None:
+        return list(FIXED)
+    return list(DEVS) if e == "all" else [x for x in e.split(",") if x]
+
+
+def cfg_for(ctx, cfg):
+    """the committed configuration with the repaired deviations switched off (absolute path usable by TLC)"""
+    fx = fixed_devs()
+    if not fx:
+        return cfg
+    text = open(os.path.join(vlib.SPEC, cfg)).read()
+    for d in fx:
+        text, n = re.subn(r"Dev_%s = TRUE" % d, "Dev_%s = FALSE" % d, text)
+    out = ctx.path("fixed_" + cfg)
+    with open(out, "w") as f:
+        f.write(text)
+    return out
+
+
 ICE_CONTEXTS = ("array", "array_neg", "enum", "case", "casedup", "bitfield", "alignas", "sa_eq", "sa_ne", "sa_direct")
 NEGATIVE = ("sa_ne", "casedup", "array_neg")          # contexts that must be rejected: one compilation each
 
@@ -781,7 +808,7 @@ def validate_events(ctx, seen, total, charsigned=True):
         j = json.loads(payload)
         judged[0] += j["n"]
         verdicts.extend(j["v"])
-    r = ctx.tlc("Trace_Fold", "MC_Trace_Fold.cfg", workers=8, env={"TRACE": path}, timeout=2400, heap="3g", on_line=on_line)
+    r = ctx.tlc("Trace_Fold", cfg_for(ctx, "MC_Trace_Fold.cfg"), workers=8, env={"TRACE": path}, timeout=2400, heap="3g", on_line=on_line)
     if not r.ok:
         raise vlib.MachineryError("Trace_Fold did not finish (rc=%s):\n%s" % (r.rc, r.out[-3000:]))
     if judged[0] != len(evs):
@@ -846,7 +873,7 @@ def model_checking(ctx):
 def flow_a(ctx, objdir, tracedir, cfg, charsigned, targets, runtime=True):
     raw = []
     with Timer(ctx, "flowA_generate"):
-        r = ctx.tlc("CArithMC", cfg, workers=8, timeout=3000, heap="3g", on_line=raw.append)
+        r = ctx.tlc("CArithMC", cfg_for(ctx, cfg), workers=8, timeout=3000, heap="3g", on_line=raw.append)
     if not r.ok:
         raise vlib.MachineryError("case generation failed (%s):\n%s" % (cfg, r.out[-3000:]))
     cases = []
